@@ -76,7 +76,7 @@ def run():
                     sig = "%s:%s:%s:%s" % (chk, kind.name, v or "default", norm(rec["what"]))
                     r.violation(sig, "%s (variant %s, seed %d): %s" % (kind.name, v, seed, rec["what"][:300]), {"kind": kind.name, "variant": v, "seed": seed})
                 # stanzas that entities produce -> codec
-                if s < (6 if thorough else 2):
+                if s < (12 if thorough else 6):
                     try:
                         if kind.direction == "out":
                             nodes_for_codec.append((kind.name, v, seed, kind.make_entity(random.Random(seed)).toProtocolTreeNode()))
